@@ -199,6 +199,7 @@ class FrameField2DFaces(_BaseFrameField2DFaces) :
             self.log("Feature element detected (border and/or feature edges)")
 
             fixed = self.mesh.faces.create_attribute("fixed", bool)
+            fixed.clear() # create_attribute may hand back an existing "fixed" attribute (flags of a previous run)
             for ie in self.feat.feature_edges:
                 u,v = self.mesh.edges[ie]
                 T1,T2 = self.mesh.connectivity.edge_to_faces(u,v)
